@@ -34,6 +34,16 @@ def gen_cases(tier, seed, ctx):
             valid = [(bits >> i) & 1 for i in range(n)]
             for lim in LIMITS:
                 add(h, lens, valid, lim, 'exhaustive%d' % n)
+    # a request AFTER an earlier one on the same context (other marks then, failed chunks reset in between): a function of the current
+    # marks only
+    for _ in range(1500 if tier == 'quick' else 15000):
+        n = rnd.randrange(2, 10)
+        lens = [rnd.choice([0, 1, 2, 3, 1000, rnd.randrange(1, 1 << 20)]) for _ in range(n)]
+        valid = [rnd.choice([0, 0, 1]) for _ in range(n)]
+        earlier = [rnd.choice([-1, 0, 1]) if v == 0 else v for v in valid]      # some of the chunks now missing had failed before
+        tbl = ','.join('%d:%d' % (l, v) for l, v in zip(lens, valid))
+        cases.append(E.Case('r%d' % len(cases), 'RANGE %d %s %d %s' % (rnd.choice([1, 135, 4096]), tbl, rnd.choice(LIMITS), ','.join(map(str, earlier))),
+                            dict(kind='after-earlier-request')))
     # vectors with failed (-1) chunks
     for _ in range(2000 if tier == 'quick' else 20000):
         n = rnd.randrange(1, 12)
